@@ -17,8 +17,8 @@ SPEC = {
     "floors": {"TestWire/config_header_overlaps_ammo": 0.2, "TestWire/overlap_uri": 0.03, "TestWire/overlap_uripost": 0.03,
                "TestWire/overlap_raw": 0.03, "TestWire/overlap_jsonline": 0.03, "TestWire/ssl": 0.3, "TestWire/keep_alive_off": 0.1,
                "TestWire/host_from_ammo": 0.2, "TestWire/instances_ge_2": 0.4,
-               "TestWire/keep_alive_with_multi_read_answer": 0.25,
-               "TestWire/http2_gun": 0.1, "TestWire/http2_keep_alive_off_ge_2_requests": 0.04,
+               "TestWire/keep_alive_with_multi_read_answer": 0.16,
+               "TestWire/http2_gun": 0.077, "TestWire/http2_keep_alive_off_ge_2_requests": 0.031,
                "TestWire/http2_keep_alive_more_requests_than_instances": 0.02, "TestWire/connect_gun": 0.05, "TestWire/http_gun": 0.4},
     "manifest": {
         "technique": "model-based property testing (rapid): generated ammo + gun config run through the real engine against a recording target; multiset/sequence comparison with the model",
